@@ -1122,6 +1122,9 @@ def hfs_legs(prop, tier, seed):
     S = []      # (name, session constants, per_scn, backends)
     if prop in ("C01", "C17"):
         S.append(("honest", dict(PatSet=INTER, PskMode="none" if q else "all", Variants=["tr", "sl"]), 1 if q else 3, "default"))
+        if q and prop == "C01":
+            # psk combined with hfs, both modifier orders (two names per scenario)
+            S.append(("psk", dict(PatSet=SUB8, PskMode="only", PubLens=[32], Variants=["tr"], TrafficMode="short"), 2, "default"))
     elif prop == "C02":
         S.append(("honest", dict(PatSet=SUB8 if q else INTER, PskMode="single", PubLens=[32] if q else [32, 65],
                                  Profiles=["zero", "max"] if q else ["zero", "small", "mid", "kilo", "max"],
